@@ -154,8 +154,8 @@ def _e4(prop, quick_cases, thorough_cases, minnt):
 
 CHECKS['C02'] = dict(stages=[_e4('C02', 4000, 100000, 200)], assumptions=_e4_assume)
 
-for _p in ('C03', 'C04', 'C06', 'C08', 'C09', 'C20', 'C05'):
-    CHECKS[_p]['stages'].append(_e4(_p, 1600, 50000, 50))
+for _p in ('C03', 'C04', 'C06', 'C08', 'C09', 'C20', 'C05', 'C07', 'C14'):
+    CHECKS[_p]['stages'].append(_e4(_p, 1600 if _p != 'C14' else 800, 50000 if _p != 'C14' else 20000, 50))
     CHECKS[_p]['assumptions'] = CHECKS[_p].get('assumptions', []) + [a for a in _e4_assume if a not in CHECKS[_p].get('assumptions', [])]
 # C04: the window in which an unaccounted message escapes the reduction is widest across ranks (slow collectives, messages in
 # MPI flight); the seeded change C04-gvt-ignores-extracted-anti-messages is found by ~3 of 4 campaigns of 1500 cases, so this
